@@ -7,8 +7,12 @@ open Gossamer Gossamer.Scale Gossamer.ScaleText
 /- line:   d <type> <input-hex>
    output: ok <canonical encoding of the decoded value> <consumed> | ok-huge | err   [+ " big"]
    spec:   what C12 demands: the outcome of the canonical decoder, or a plain failure; never `big`.
+           followed by " <reader>=<outcome>" for every other way of feeding the same bytes
+           (Unmarshal, NewDecoder over bytes.Reader / HalfReader / OneByteReader / DataErrReader)
+           whose outcome differs from the bytes.Buffer one; the spec has none of these.
    known findings: `bytes-short-read` (zero-filled short read in decodeBytes),
-                   `bytes-alloc` (declared length allocated before reading). -/
+                   `bytes-alloc` (declared length allocated before reading),
+                   `bytes-chunked-read` (decodeBytes over a reader that delivers less per Read). -/
 
 def showDecode (t : Ty) (data : Bytes) (o : C12.DRes) : String :=
   let big := if o.req > data.length + 1024 then " big" else ""
@@ -18,6 +22,23 @@ def showDecode (t : Ty) (data : Bytes) (o : C12.DRes) : String :=
     if o.req > data.length + 65536 then "ok-huge" ++ big
     else s!"ok {hex (encode Spec.codec t v)} {data.length - r.length}{big}"
 
+/-- outcome of one of the other reader kinds, in the harness's notation -/
+def viaOut (t : Ty) (o : Option (Val × Bytes)) : String :=
+  match o with
+  | none => "err"
+  | some (v, _) => s!"ok:{hex (encode Spec.codec t v)}"
+
+/-- " <kind>=<outcome>" for every reader kind whose outcome differs from the bytes.Buffer one -/
+def readerSuffix (t : Ty) (data : Bytes) (o : C12.DRes) : String :=
+  if o.req > data.length + 65536 then ""
+  else
+    let base := viaOut t o.res
+    let kinds : List (String × C12.RKind) :=
+      [("um", .buffer), ("rdr", .buffer), ("half", .half), ("one", .one), ("derr", .dataErr)]
+    kinds.foldl (fun acc (name, k) =>
+      let x := viaOut t (C12.decodeR k t data)
+      if x = base then acc else acc ++ s!" {name}={x}") ""
+
 def step (line : String) : String :=
   match words line with
   | ["d", tys, h] =>
@@ -25,7 +46,8 @@ def step (line : String) : String :=
     | some g, some data =>
       let t := g.toTy
       let o := C12.decodeA t data
-      let model := showDecode t data o
+      let rs := readerSuffix t data o
+      let model := showDecode t data o ++ rs
       let spec :=
         match decode Spec.codec t data with
         | none => "err"
@@ -35,7 +57,8 @@ def step (line : String) : String :=
       if model = spec then model
       else
         let kf := if o.zf then "bytes-short-read"
-                  else if o.req > data.length + 1024 then "bytes-alloc" else "none"
+                  else if o.req > data.length + 1024 then "bytes-alloc"
+                  else if rs ≠ "" then "bytes-chunked-read" else "none"
         s!"{model}\tspec={spec}\tkf={kf}"
     | _, _ => "bad-op"
   | ["mdec", kts, vts, h, dst] => ScaleMap.stepDec kts vts h dst
